@@ -1,6 +1,7 @@
 import KoordVerif.Common.Proto
 import KoordVerif.Model.C09
 import KoordVerif.Model.C09Plugin
+import KoordVerif.Model.C09Reconcile
 /-
 Driver for C09.  A case is a sequence of scenario-building lines and `calc` lines:
   cfg  <cpuThr> <memThr> <cpuPol> <memPol> <cpuCapPct|-1> <memCapPct|-1> <degradeMinutes>
@@ -27,7 +28,15 @@ plugin glue (Model/C09Plugin.lean):
   bsync <oldC|-1> <oldM|-1> <thrPermille> -> `bsync <0|1>`                  (after bprep)
   hcfg <enabled> <updateIntervalSec> <thrPermille>
   newround    -> forget the scenario but keep the node's published amounts and the last sync time
-  rec         -> `node <bc> <bm> <mc> <mm>` `sync <0|1>`                    (one Reconcile at `time`'s now)
+  rec         -> `node <bc> <bm> <mc> <mm>` `sync <0|1>` `ratio <kind> <pct>` `originanno none|<cpu> <mem>` (one Reconcile at `time`'s now; the
+                 NodeResource is threaded through every prepare call site, Model/C09Reconcile.lean)
+  norm <kind 0 absent|1 unparsable|2 pct> <pct>   cpu-normalization ratio annotation of the round's NodeResource
+  noderatio <kind> <pct>                          somebody (not the controller) rewrites the node's ratio annotation
+  nodewipe                                        somebody removes the controller-owned node annotations (ratio, origin)
+  bfrac <cpuMilli> <memMilli>                     fractional part added to the stored batch quantities before `bprep`
+  bagain      -> `bpub …` `origin …`              Prepare once more on the SAME NodeResource (fresh node copy)
+  bnr <cpuMilli|-1> <memMilli|-1> <reset> <ratioKind> <pct> <annoNil> <tpKind> <tpC|-1> <tpM|-1>
+              -> `bpub …` `origin …`              Prepare on a hand-built NodeResource (stored quantities in milli units)
 Float parameters are instantiated with Lean's runtime Float (IEEE binary64, as Go).
 -/
 namespace KoordVerif.C09
@@ -54,6 +63,11 @@ structure St where
   bprepared : Option BatchPrepared := none
   hcfg : Option (Bool × Int × Int) := none
   rst : RState := RState.init
+  ratio : RatioAnno := .absent          -- the round's NodeResource annotation
+  nodeRatio : RatioAnno := .absent      -- the node object's annotation (kept across rounds)
+  nodeOrigin : Option (Int × Int) := none
+  frac : Int × Int := (0, 0)
+  bnr : Option (Bool × ThirdParty × NRes) := none
 
 def prio? : Int → Option Prio
   | 0 => some .prod | 1 => some .mid | 2 => some .batch | 3 => some .free | 4 => some .none | _ => none
@@ -99,14 +113,28 @@ def batchOut? (st : St) : Option Out :=
     some (calculate floatOps stdPrio s n st.hosts.toList st.pods.toList st.mets.toList st.zones.toList hu now upd)
   | _, _, _ => none
 
+def ratio? (kind pct : Int) : Option RatioAnno :=
+  match kind with
+  | 0 => some .absent | 1 => some .bad | 2 => some (.pct pct) | _ => none
+
+def showRatio : RatioAnno → String
+  | .absent => "ratio 0 0" | .bad => "ratio 1 0" | .pct r => s!"ratio 2 {r}"
+
+def showBatchPrepared (b : BatchPrepared) : List String :=
+  [s!"bpub {showExt b.cpu} {showExt b.mem}",
+   match b.origin with | none => "origin none" | some (c, m) => s!"origin {c} {m}"]
+
 def showRec (st : St) : St × List String :=
   match st.s, st.n, st.t, st.ms, st.mm, st.hcfg with
   | some s, some n, some (hu, now, upd), some ms, some mm, some (en, interval, thr) =>
-    let c := computedPub floatOps stdPrio stdMidDefaults en s ms n st.allocNil st.hosts.toList st.pods.toList st.mets.toList mm hu now upd
-    let r' := reconcileStep diffOps thr interval now st.rst c
-    ({ st with rst := r' },
-     [s!"node {showExt r'.pub.bc} {showExt r'.pub.bm} {showExt r'.pub.mc} {showExt r'.pub.mm}",
-      s!"sync {b2i (commonNeedSync st.rst.lastSync now interval || pluginsNeedSync diffOps thr st.rst.pub c)}"])
+    let nr := nresOf floatOps stdPrio stdMidDefaults en s ms n st.allocNil st.hosts.toList st.pods.toList st.mets.toList mm hu now upd st.ratio
+    let c := (prepareAll floatOps nr).1
+    let r' := (reconcileNR floatOps diffOps thr interval now { r := st.rst, ratio := st.nodeRatio, origin := st.nodeOrigin } nr).1
+    ({ st with rst := r'.r, nodeRatio := r'.ratio, nodeOrigin := r'.origin },
+     [s!"node {showExt r'.r.pub.bc} {showExt r'.r.pub.bm} {showExt r'.r.pub.mc} {showExt r'.r.pub.mm}",
+      s!"sync {b2i (commonNeedSync st.rst.lastSync now interval || pluginsNeedSync diffOps thr st.rst.pub c)}",
+      showRatio r'.ratio,
+      match r'.origin with | none => "originanno none" | some (c, m) => s!"originanno {c} {m}"])
   | _, _, _, _, _, _ => (st, ["bad-op"])
 
 def step (st : St) (line : String) : St × List String :=
@@ -114,8 +142,15 @@ def step (st : St) (line : String) : St × List String :=
   match toks line with
   | ["calc"] => (st, showCalc st)
   | ["clear"] => ({}, [])
-  | ["newround"] => ({ rst := st.rst }, [])
+  | ["newround"] => ({ rst := st.rst, nodeRatio := st.nodeRatio, nodeOrigin := st.nodeOrigin }, [])
+  | ["nodewipe"] => ({ st with nodeRatio := .absent, nodeOrigin := none }, [])
   | ["rec"] => showRec st
+  | ["bagain"] =>
+    match st.bnr with
+    | some (an, tp, nr) =>
+      let b := batchPrepareNR floatOps an tp nr
+      ({ st with bnr := some (an, tp, b.2), bprepared := some b.1 }, showBatchPrepared b.1)
+    | none => bad
   | ["mcalc"] =>
     match midOut? st with
     | some .error => (st, ["merr"])
@@ -192,11 +227,30 @@ def step (st : St) (line : String) : St × List String :=
         match batchOut? st, bool? an, tp with
         | some o, some an, some tp =>
           let (qc, qm, rs) := batchOutQuantities o
-          let b := batchPrepare floatOps (optNeg ratio) an tp qc qm rs
-          ({ st with bprepared := some b },
-           [s!"bpub {showExt b.cpu} {showExt b.mem}",
-            match b.origin with | none => "origin none" | some (c, m) => s!"origin {c} {m}"])
+          let nr : NRes := { bc := qc.map (fun v => storeInt v + st.frac.1), bm := qm.map (fun v => storeInt v + st.frac.2),
+                             mc := none, mm := none, resetB := rs, resetM := false,
+                             ratio := if ratio < 0 then .absent else .pct ratio }
+          let b := batchPrepareNR floatOps an tp nr
+          ({ st with bprepared := some b.1, bnr := some (an, tp, b.2) }, showBatchPrepared b.1)
         | _, _, _ => bad
+      | "bnr", [qc, qm, rs, rk, rp, an, tk, tc, tm] =>
+        let tp : Option ThirdParty := match tk with
+          | 0 => some .absent | 1 => some .bad | 2 => some (.some (optNeg tc) (optNeg tm)) | _ => none
+        match bool? rs, ratio? rk rp, bool? an, tp with
+        | some rs, some ra, some an, some tp =>
+          let nr : NRes := { bc := optNeg qc, bm := optNeg qm, mc := none, mm := none, resetB := rs, resetM := false, ratio := ra }
+          let b := batchPrepareNR floatOps an tp nr
+          ({ st with bprepared := some b.1, bnr := some (an, tp, b.2) }, showBatchPrepared b.1)
+        | _, _, _, _ => bad
+      | "norm", [kind, pct] =>
+        match ratio? kind pct with
+        | some a => ({ st with ratio := a }, [])
+        | none => bad
+      | "noderatio", [kind, pct] =>
+        match ratio? kind pct with
+        | some a => ({ st with nodeRatio := a }, [])
+        | none => bad
+      | "bfrac", [fc, fm] => if fc < 0 ∨ fc ≥ 1000 ∨ fm < 0 ∨ fm ≥ 1000 then bad else ({ st with frac := (fc, fm) }, [])
       | "bsync", [oc, om, thr] =>
         match st.bprepared with
         | some b =>
